@@ -1093,6 +1093,9 @@ func (s *Sim) SetLimits(maxSteps uint64, tickLimit int) {
 	}
 }
 
+// SetMaxSimTime changes the simulated-time budget of the run.
+func (s *Sim) SetMaxSimTime(d time.Duration) { s.cfg.MaxSimTime = d }
+
 // Op labels what the current task is executing (appears in hang reports).
 func (s *Sim) Op(label string) { s.cur.opLabel = label; s.cur.ticks = 0 }
 
